@@ -8,46 +8,51 @@ From Core Require Import Syntax Sem.
 From Par Require Import Footprint Proofs_Footprint ParSem Proofs_Races.
 Import ListNotations.
 
-(** ** iterations as footprint-reporting actions on a memory of cells *)
-Definition ev_action (V : Type) : Type := action cell V (list event).
-Definition ev_respects (V : Type) (add : V -> V -> V) : ev_action V -> Prop :=
-  respects cell V add (list event) ev_R ev_W ev_P.
-Definition ev_run (V : Type) : (Z -> ev_action V) -> list Z -> mem cell V -> option (mem cell V * list (Z * list event)) :=
-  run_iters cell V Z (list event).
+(** ** iterations as footprint-reporting actions; footprints = event lists *)
+Definition ev_respects (S V : Type) (get : S -> cell -> V) (sim : S -> S -> Prop)
+  : action S (list event) -> Prop :=
+  respects S cell V get sim (list event) ev_R ev_W ev_P.
+Definition ev_run (S : Type) : (Z -> action S (list event)) -> list Z -> S -> option (S * list (Z * list event)) :=
+  run_iters S Z (list event).
+Definition ev_same (S V : Type) (get : S -> cell -> V) (sim : S -> S -> Prop) : S -> S -> Prop :=
+  seqv S cell V get sim.
 
-Lemma perm_events : forall (V : Type) (add : V -> V -> V) (act : Z -> ev_action V),
-  (forall k, ev_respects V add (act k)) ->
-  forall its m mf evs,
-    ev_run V act its m = Some (mf, evs) ->
+Lemma perm_events : forall (S V : Type) (get : S -> cell -> V) (sim : S -> S -> Prop),
+  (forall s, sim s s) -> (forall s s', sim s s' -> sim s' s) ->
+  (forall s s' s'', sim s s' -> sim s' s'' -> sim s s'') ->
+  forall (act : Z -> action S (list event)),
+  (forall k, ev_respects S V get sim (act k)) ->
+  forall its s sf evs,
+    ev_run S act its s = Some (sf, evs) ->
     iters_conflict evs = None ->
     forall sigma, Permutation its sigma ->
-    exists mf' evs', ev_run V act sigma m = Some (mf', evs') /\ meq cell V mf mf' /\ Permutation evs evs'.
+    exists sf' evs', ev_run S act sigma s = Some (sf', evs') /\ ev_same S V get sim sf sf' /\ Permutation evs evs'.
 Proof.
-  intros V add act HR its m mf evs E NCf sigma P.
-  exact (perm_run cell V Z cell_eq_dec add (list event) ev_R ev_W ev_P act HR its sigma P m mf evs E
+  intros S V get sim R1 R2 R3 act HR its s sf evs E NCf sigma P.
+  exact (perm_run S cell V Z cell_eq_dec get sim R1 R2 R3 (list event) ev_R ev_W ev_P act HR its sigma P s sf evs E
            (iters_conflict_none evs NCf)).
 Qed.
 
-(** non-vacuity: two iterations writing different cells of a two-cell memory *)
-Definition ex_act (k : Z) : ev_action Z :=
+(** non-vacuity: iterations writing different cells of a memory [cell -> Z] *)
+Definition ex_act (k : Z) : action (cell -> Z) (list event) :=
   fun m => Some ((fun c => if cell_eqb c (CMem 1 k) then (m (CMem 1 2) + k)%Z else m c),
                  [(KRead, CMem 1%positive 2%Z); (KWrite, CMem 1%positive k)]).
 
 Example perm_events_nonvacuous :
-  (forall k, k <> 2%Z -> ev_respects Z Z.add (ex_act k)) /\
-  exists mf evs, ev_run Z ex_act [0%Z; 1%Z] (fun _ => 7%Z) = Some (mf, evs) /\ iters_conflict evs = None.
+  (forall k, ev_respects (cell -> Z) Z (fun m c => m c) (fun _ _ => True) (ex_act k)) /\
+  exists mf evs, ev_run (cell -> Z) ex_act [0%Z; 1%Z] (fun _ => 7%Z) = Some (mf, evs) /\ iters_conflict evs = None.
 Proof.
   split.
-  - intros k Hk. constructor.
-    + intros m m' f E c NM. inversion E; subst; clear E. cbv beta.
+  - intros k. constructor.
+    + intros m m' f E. inversion E; subst; clear E. split; [exact I|]. intros c NM. cbv beta.
       destruct (cell_eqb c (CMem 1 k)) eqn:Q; [|reflexivity].
       apply cell_eqb_eq in Q. subst. exfalso. apply NM. left. left. reflexivity.
-    + intros m m' f E m2 A. inversion E; subst; clear E.
-      eexists. split; [reflexivity|]. split.
-      * intros c Hc. assert (c = CMem 1 k) by (destruct Hc as [<-|[]]; reflexivity). subst c.
-        cbv beta. rewrite (proj2 (cell_eqb_eq (CMem 1 k) (CMem 1 k)) eq_refl).
-        rewrite (A (CMem 1 2)); [reflexivity|left; reflexivity].
-      * intros c [].
+    + intros m m' f E m2 _ A. inversion E; subst; clear E.
+      eexists. split; [reflexivity|]. split; [exact I|]. intros c H. cbv beta.
+      destruct (cell_eqb c (CMem 1 k)) eqn:Q.
+      * rewrite (A (CMem 1 2)); [reflexivity|left; left; reflexivity].
+      * destruct H as [H|[H|H]]; [exact H| |destruct H].
+        destruct H as [<-|[]]. cbn [snd] in Q. rewrite (proj2 (cell_eqb_eq (CMem 1 k) (CMem 1 k)) eq_refl) in Q. discriminate.
   - eexists. eexists. split; [reflexivity|]. vm_compute. reflexivity.
 Qed.
 
